@@ -240,19 +240,22 @@ func (l *c16GrowingLog) GetSTH(context.Context) (*ct.SignedTreeHead, error) {
 		k = len(l.sizes) - 1
 	}
 	l.calls++
-	l.size = l.sizes[k]
+	if l.sizes[k] > l.size {
+		l.size = l.sizes[k] // entries once published stay available, also while a lagging front end serves an older head
+	}
 	return &ct.SignedTreeHead{TreeSize: uint64(l.sizes[k])}, nil
 }
 
 // Harness_C16_continuous: continuous mode. The log first publishes 2 entries, then (after an
-// unchanged head) 4; the fetcher carries on with the newly published entries without gaps or
+// unchanged or a stale, smaller head) 4; the fetcher carries on with the newly published entries without gaps or
 // repeats, and stops when Stop is called after index 3 was delivered: every index of [0, 4)
 // reaches the callback exactly once, nothing else does, Run returns.
 //
 //verif:opt sched=1 race=1 preempt=1 thorough.preempt=2 maxpaths=400000 thorough.maxpaths=4000000 decisions=8000 steps=40000000 reach=stopped
 func Harness_C16_continuous() {
 	const n = 4
-	log := &c16GrowingLog{sizes: []int64{2, 2, 4, 4}}
+	// the tree heads the log serves: growing, or with stale (smaller) heads from a lagging front end in between
+	log := &c16GrowingLog{sizes: [][]int64{{2, 2, 4, 4}, {2, 1, 4, 3, 4}}[vChoice("sth-history", 2)]}
 	log.base = 0
 	for i := 0; i < n; i++ {
 		log.short = append(log.short, (i+vChoice("short", 2))%2)
@@ -285,4 +288,49 @@ func Harness_C16_continuous() {
 		vAssert(sink.count[k] == 1, "continuous mode carries on with newly published entries without gaps or repeats")
 	}
 	vReach("stopped")
+}
+
+// Harness_C16_scanCancel: the caller cancels a scan at an arbitrary moment: ScanLog returns on
+// every interleaving (no fetch or matcher goroutine is left blocked on the other), and no entry
+// reached a callback twice.
+//
+//verif:opt sched=1 race=1 preempt=1 thorough.preempt=2 maxpaths=400000 thorough.maxpaths=4000000 decisions=4000 steps=20000000 reach=returned
+func Harness_C16_scanCancel() {
+	n := 3
+	log := &c16ScanLogClient{}
+	log.base, log.size = 0, int64(n)
+	m := c16Matcher{}
+	for i := 0; i < n; i++ {
+		log.short = append(log.short, 1)
+		log.fail = append(log.fail, false)
+		log.pre = append(log.pre, i == 1)
+		m.sel = append(m.sel, true)
+	}
+	opts := ScannerOptions{FetcherOptions: FetcherOptions{BatchSize: 3, ParallelFetch: 1, StartIndex: 0, EndIndex: int64(n)},
+		Matcher: m, NumWorkers: 1 + vChoice("matchers", 2), BufferSize: vChoice("buffer", 2)}
+	s := NewScanner(log, opts)
+	ctx, cancel := context.WithCancel(context.Background())
+	done := make(chan struct{})
+	go func() {
+		vSched("caller cancels")
+		cancel()
+		close(done)
+	}()
+	var mu sync.Mutex
+	seen := make([]int, n)
+	count := func(e *ct.RawLogEntry) {
+		mu.Lock()
+		defer mu.Unlock()
+		if e.Index >= 0 && e.Index < int64(n) {
+			seen[e.Index]++
+		}
+	}
+	s.ScanLog(ctx, count, count)
+	<-done
+	mu.Lock()
+	defer mu.Unlock()
+	for k := 0; k < n; k++ {
+		vAssert(seen[k] <= 1, "no entry reaches a callback twice")
+	}
+	vReach("returned")
 }
